@@ -868,6 +868,8 @@ class World:
             return e[1]
         if e[0] == "echo":
             return args.get(e[1])
+        if e[0] == "echoall":
+            return dict(args)          # what the resolver received: coerced arguments, in definition order
         if e[0] == "err":
             cls = UserError if int(e[1][-1]) % 2 else ResolverError
             err = cls(e[1], extensions=e[2])
@@ -950,6 +952,8 @@ def centry(e):
         return "(WVal %s)" % ser.cpv(e[1])
     if e[0] == "echo":
         return "(WEcho %s)" % ser.cstr(e[1])
+    if e[0] == "echoall":
+        return "WEchoAll"
     if e[0] == "err":
         return "(WErr %s %s)" % (ser.cstr(e[1]), ser.cpv(e[2]))
     if e[0] == "exn":
